@@ -700,6 +700,7 @@ struct Interp {
   bool edge_for(int a, int b, int sel, bool may_dup, int &e) {
     auto ex = L.live_edges_between(a, b);
     if (!ex.empty() && !(may_dup && (sel % 7) == 6)) { e = ex[(size_t)sel % ex.size()]; return true; }
+    if ((sel >> 1) & 1) std::swap(a, b);  // mixed edge orientations
     return prim_add_edge(a, b, /*allowDup*/ !ex.empty() || (sel & 1), e) && e >= 0;
   }
   HEu he_dir(int e, int from) const { return HEu{e, (L.E[(size_t)e].from == from) ? 0 : 1}; }
@@ -946,7 +947,7 @@ struct Interp {
         auto key = std::make_pair(std::min(x, y), std::max(x, y));
         if (emap.count(key)) continue;
         int e;
-        if (!edge_for(x, y, 0, false, e)) return fail.empty();
+        if (!edge_for(x, y, a[4] + (int)emap.size() * 3, false, e)) return fail.empty();
         emap[key] = e;
       }
     std::vector<HFu> hfs;
